@@ -485,8 +485,17 @@ async fn random_script(s: &mut S, steps: usize) {
                                 s.pending_batches.push(d.clone());
                                 pl.push(d);
                             }
-                            s.act(format!("proposal r{} by non-leader {} (payload {})", round, other, pl.len()));
-                            s.p.mk_block(*other, round, hi, None, pl)
+                            // sometimes carrying a stale TC chosen so that the author is the leader of the
+                            // round right after that TC (but not of the block's round)
+                            let mut tc = None;
+                            if s.rng.gen_bool(0.5) && round >= 3 {
+                                let stale: Vec<u64> = (1..round - 1).filter(|t| s.p.leader(t + 1) == *other).collect();
+                                if let Some(t0) = stale.choose(&mut s.rng).cloned() {
+                                    tc = Some(s.tc_for(t0, 0));
+                                }
+                            }
+                            s.act(format!("proposal r{} by non-leader {} (payload {}, stale TC {:?})", round, other, pl.len(), tc.as_ref().map(|t| t.round)));
+                            s.p.mk_block(*other, round, hi, tc, pl)
                         }
                     };
                     s.deliver(&b).await;
@@ -951,7 +960,7 @@ async fn directed(s: &mut S, class: &str) {
             for _ in 0..3 {
                 s.advance(vec![], true).await;
             }
-            for variant in 0..3 {
+            for variant in 0..4 {
                 let mut guard = 0;
                 while s.p.leader(s.cur) == s.p.r && guard < 4 {
                     s.advance(vec![], true).await;
@@ -966,17 +975,25 @@ async fn directed(s: &mut S, class: &str) {
                     s.settle().await;
                 }
                 let cands: Vec<usize> = s.p.puppets().into_iter().filter(|x| *x != leader).collect();
-                let other = *cands.choose(&mut s.rng).unwrap();
+                let mut other = *cands.choose(&mut s.rng).unwrap();
                 let d = rand_digest(&mut s.rng);
                 let payload = match variant {
-                    0 => vec![],
+                    0 | 3 => vec![],
                     1 => {
                         s.p.store_batch(&d).await;
                         vec![d.clone()]
                     }
                     _ => vec![d.clone()],
                 };
-                let tc = if s.tip.round + 1 != round { Some(s.tc_for(round - 1, s.tip_qc.round)) } else { None };
+                let mut tc = if s.tip.round + 1 != round { Some(s.tc_for(round - 1, s.tip_qc.round)) } else { None };
+                if variant == 3 && round >= 3 {
+                    // the non-leader attaches a stale TC of a round t such that it leads round t+1
+                    let pairs: Vec<(usize, u64)> = cands.iter().flat_map(|c| (1..round - 1).filter(|t| s.p.leader(t + 1) == *c).map(|t| (*c, t)).collect::<Vec<_>>()).collect();
+                    if let Some((c, t0)) = pairs.choose(&mut s.rng).cloned() {
+                        other = c;
+                        tc = Some(s.tc_for(t0, 0));
+                    }
+                }
                 let b = s.p.mk_block(other, round, s.tip_qc.clone(), tc, payload);
                 s.act(format!("proposal r{} by non-leader {} (variant {})", round, other, variant));
                 s.deliver(&b).await;
@@ -1211,7 +1228,7 @@ async fn directed(s: &mut S, class: &str) {
             for _ in 0..2 {
                 s.advance(vec![], true).await;
             }
-            for variant in 0..7 {
+            for variant in 0..8 {
                 while s.p.leader(s.cur) == s.p.r {
                     s.advance(vec![], true).await;
                 }
@@ -1280,6 +1297,23 @@ async fn directed(s: &mut S, class: &str) {
                             s.p.store_batch(d).await;
                             s.settle().await;
                         }
+                    }
+                    6 => {
+                        // the same proposal is delivered again (re-broadcast / sync reply) while its batches
+                        // are still missing: still no vote before they are stored
+                        let b = s.advance(ds.clone(), true).await;
+                        if let Some(b) = b {
+                            for _ in 0..2 {
+                                s.act(format!("re-delivery of r{} while its batches are missing", b.round));
+                                s.deliver(&b).await;
+                                s.settle().await;
+                            }
+                        }
+                        s.p.wait_ms(30).await;
+                        for d in &ds {
+                            s.p.store_batch(d).await;
+                        }
+                        s.settle().await;
                     }
                     _ => {
                         // duplicate digests and the digest of a stored block
